@@ -9,6 +9,7 @@ import (
 	"path/filepath"
 	"sort"
 	"strconv"
+	"strings"
 	"time"
 
 	"verifharness/core"
@@ -270,6 +271,46 @@ func runC09(r *core.Run) {
 			case 1:
 				what = fmt.Sprintf("restart with rotation (fee %d)", fee)
 				err = env.Reload(true, fee)
+			case 2:
+				// the way an operator does it: rotate_keyset on the admin RPC socket of mint/manager
+				what = fmt.Sprintf("runtime rotation over the admin RPC (fee %d)", fee)
+				var raw json.RawMessage
+				raw, err = c16AdminCall(env, "rotate_keyset", fmt.Sprint(fee))
+				if err != nil && strings.HasPrefix(err.Error(), "rpc error") {
+					r.Violate("admin-rotate-failed", what+": "+err.Error(), sig, nil)
+					return
+				} else if err != nil {
+					r.Inconclusive("admin rpc: " + err.Error())
+					what = fmt.Sprintf("runtime rotation (fee %d)", fee)
+					err = env.Rotate(fee)
+				} else {
+					r.Count("rotations_over_the_admin_rpc", 1)
+					_ = raw
+					// and what list_keysets says on the same socket is what the mint lists
+					if lraw, lerr := c16AdminCall(env, "list_keysets"); lerr == nil {
+						want, _ := json.Marshal(env.M.ListKeysets())
+						// (the order of a listing is free: compared as sets of entries)
+						norm := func(raw []byte) string {
+							var l struct {
+								Keysets []json.RawMessage `json:"keysets"`
+							}
+							json.Unmarshal(raw, &l)
+							var rows []string
+							for _, k := range l.Keysets {
+								var v any
+								json.Unmarshal(k, &v)
+								j, _ := json.Marshal(v)
+								rows = append(rows, string(j))
+							}
+							sort.Strings(rows)
+							return strings.Join(rows, ",")
+						}
+						ja, jb := norm(lraw), norm(want)
+						if ja != jb {
+							r.Violate("admin-list-keysets-differs", fmt.Sprintf("list_keysets over the admin RPC answers %s, the mint lists %s", truncStr(ja, 300), truncStr(jb, 300)), sig, nil)
+						}
+					}
+				}
 			default:
 				what = fmt.Sprintf("runtime rotation (fee %d)", fee)
 				err = env.Rotate(fee)
